@@ -182,6 +182,8 @@ func CopyTree(src, dst string, skip func(rel string) bool) (string, error) {
 	return hex.EncodeToString(hh.Sum(nil)), nil
 }
 
+var bufPool = sync.Pool{New: func() interface{} { b := make([]byte, 256<<10); return &b }}
+
 const (
 	seekData = 3
 	seekHole = 4
@@ -210,7 +212,9 @@ func copySparse(src, dst string) (hash string, size int64, err error) {
 	h := sha256.New()
 	fd := int(in.Fd())
 	off := int64(0)
-	buf := make([]byte, 1<<20)
+	bp := bufPool.Get().(*[]byte)
+	defer bufPool.Put(bp)
+	buf := *bp
 	for off < size {
 		dataStart, e := syscall.Seek(fd, off, seekData)
 		if e != nil {
